@@ -85,9 +85,15 @@ func (e *sessEnv) applyCfg(args []string) string {
 		e.md = e.meta
 	}
 	if kv["skip"] != "-" {
-		n, _ := strconv.ParseInt(kv["skip"], 10, 64)
-		t := time.Unix(n, 0)
-		e.cfg.Dcp.Listener.SkipUntil = &t
+		sec, frac, _ := strings.Cut(kv["skip"], ".")
+		n, _ := strconv.ParseInt(sec, 10, 64)
+		ns, _ := strconv.ParseInt(frac, 10, 64)
+		t := time.Unix(n, ns)
+		// the value as the configuration hands it to the observers: through config.ApplyDefaults, as dcp.newDcp does
+		tmp := &config.Dcp{}
+		tmp.Dcp.Listener.SkipUntil = &t
+		tmp.ApplyDefaults()
+		e.cfg.Dcp.Listener.SkipUntil = tmp.Dcp.Listener.SkipUntil
 	} else {
 		e.cfg.Dcp.Listener.SkipUntil = nil
 	}
